@@ -26,14 +26,16 @@ pub fn simple(contours: &[Vec<(i16, i16, bool)>], instr: &[u8]) -> GlyphRec {
     g
 }
 
-/// flags: argument/transform/instruction bits as given; MORE_COMPONENTS is filled in here.
+/// flags: argument/transform/instruction bits as given; MORE_COMPONENTS is filled in here, and
+/// WE_HAVE_INSTRUCTIONS on the last component when there are instructions and no component has it.
 pub fn composite(comps: &[(u16, u16, i32, i32, &[i16])], instr: &[u8], glyphs: &[GlyphRec]) -> GlyphRec {
     let n = comps.len();
+    let flagged = comps.iter().any(|c| c.0 & 0x0100 != 0);
     let cs: Vec<Comp> = comps
         .iter()
         .enumerate()
         .map(|(k, c)| Comp {
-            flags: (c.0 & !0x0020) | if k + 1 < n { 0x0020 } else { 0 } | if !instr.is_empty() && k + 1 == n { 0x0100 } else { 0 },
+            flags: (c.0 & !0x0020) | if k + 1 < n { 0x0020 } else { 0 } | if !instr.is_empty() && !flagged && k + 1 == n { 0x0100 } else { 0 },
             gid: c.1,
             a1: c.2,
             a2: c.3,
@@ -118,6 +120,7 @@ const USE_MY_METRICS: u16 = 0x0200;
 const OVERLAP: u16 = 0x0400;
 const SCALED_OFFSET: u16 = 0x0800;
 const UNSCALED_OFFSET: u16 = 0x1000;
+const INSTR: u16 = 0x0100;
 
 /// Every argument width x transform kind, instructions, nesting, flags that must be carried over.
 pub fn shapes_font(long: bool, style: u8) -> Tables {
@@ -139,6 +142,8 @@ pub fn shapes_font(long: bool, style: u8) -> Tables {
     g.push(GlyphRec::empty()); // 13 empty
     g.push(simple(&[vec![(0, 0, true), (1000, 0, true), (500, 1000, false)]], &[0x00])); // 14 odd-length simple
     add(&mut g, &[(XY, 14, 1, 1, &[])], &[]); // 15
+    add(&mut g, &[(XY | INSTR, 1, 3, 3, &[])], &[]); // 16 WE_HAVE_INSTRUCTIONS with an empty instruction block
+    add(&mut g, &[(XY | INSTR, 1, 3, 3, &[]), (XY, 2, 4, 4, &[])], &[0x42, 0x43]); // 17 the flag on a component that is not the last
     build_tt(&g, long, 9, style, &[])
 }
 
@@ -357,6 +362,9 @@ pub fn var_font(variant: u8) -> Tables {
         &[],
         vec![Tuple { peak: vec![ONE, 0], inter: None, points: Some(vec![1]), dx: vec![70], dy: vec![0] }],
     );
+    // 16: WE_HAVE_INSTRUCTIONS with an empty block; 17: the flag on the first of two components
+    add(&mut g, &[(XY | INSTR, 1, 100, 0, &[])], &[], vec![comp_tuple([ONE, 0], &[(60, 0)], 0)]);
+    add(&mut g, &[(XY | INSTR, 2, 0, 100, &[]), (XY, 1, 1, 1, &[])], &[0x42, 0x43, 0x44], vec![comp_tuple([ONE, 0], &[(0, 60), (0, 0)], 0)]);
     let n = g.len();
     let gvar = gvar_bytes(2, &tv, long);
     build_tt(&g, long, if long { 6 } else { n }, variant, &[("fvar", fvar_bytes(2)), ("gvar", gvar)])
